@@ -2,6 +2,7 @@
 import os
 import pathlib
 
+from . import c06 as C06
 from ..runner import Outcome, HarnessError
 from .. import ast as A, ref as R, trees as T, walker as W, fscommon as FC, findings as K, util
 from ..util import G, WP
@@ -162,6 +163,11 @@ def check_case(root, spec, pp, cfg, out, armed, excl=None):
                             if m and isinstance(pp.segs[-1], str) and pp.trail and not os.path.isdir(rel):
                                 ids.add('K16')
                             if not m:
+                                comps = rel.split('/')
+                                lf = C06.link_flags(os.getcwd(), comps)
+                                segs = [('gs', bool(cfg.get('follow')))] + C06.seg_list(pp, dict(cfg, matchbase=False))
+                                if any(lf[:-1]) and C06.ambiguous_link_alignment(comps, lf, segs, bool(cfg.get('icase'))):
+                                    ids.add('K29')
                                 for spelled in (rel + '/.', rel + '/..', './' + rel):
                                     ids |= K.path_classes(pp, spelled, kw, True, R.MUSTNOT, text) & {'K3', 'K8', 'K20'}
                             c = dict(case, problem='q.match(p, REALPATH) differs from "rglob(p) yields q"', name=rel, match=bool(m), rglob=q in ry)
